@@ -7,7 +7,7 @@ from .shapes import TRANSPARENT
 QUIET = set(TRANSPARENT) | set(["filter", "map", "enumerate", "flatten", "flat_map", "rev", "chain", "zip", "skip", "take", "cloned", "copied", "filter_map", "inspect",
                                 "by_ref", "len", "is_empty", "clone", "into_iter", "iter", "iter_mut", "deref", "deref_mut", "index", "index_mut", "from", "into",
                                 "as_ref", "as_mut", "borrow", "to_owned", "must_use", "discriminant_value",
-                                "new_uninit", "box_assume_init_into_vec_unsafe", "into_vec"])
+                                "new_uninit", "box_assume_init_into_vec_unsafe", "into_vec", "as_slice", "as_mut_slice"])
 
 
 def _fresh_box(ev, t):
@@ -25,6 +25,7 @@ class Canon(object):
     def __init__(self, ev, keep=()):
         self.ev = ev
         self.keep = frozenset(keep)   # names that stay visible although they are normally looked through
+        self.live = None              # (loop id, key) of carried variables that are looked at; None: all
         self.loops = {}
         self.keys = {}
         self.subst = {}
@@ -55,7 +56,9 @@ class Canon(object):
                 if len(rest) == 1 and isinstance(rest[0], tuple) and rest[0][:2] == ("agg", "tuple"):
                     rest = rest[0][3]
                 return ("apply", self.term(t[2][0]), tuple(self.term(a) for a in rest))
-            if name in ("deref", "deref_mut", "as_ref", "as_mut", "borrow", "into_iter", "iter", "iter_mut", "from", "into", "clone", "must_use") and t[2] and name not in self.keep:
+            if name in ("cast", "cast_mut", "cast_const") and c is not None and not getattr(c, "local", False) and "ptr::" in (getattr(c, "path", "") or "") and len(t[2]) == 1:
+                return self.term(t[2][0])    # a raw pointer retyped: same address, same provenance
+            if name in ("deref", "deref_mut", "as_ref", "as_mut", "borrow", "into_iter", "iter", "iter_mut", "from", "into", "clone", "must_use", "as_slice", "as_mut_slice") and t[2] and name not in self.keep:
                 return self.term(t[2][0])
             return ("call", name, tuple(self.term(a) for a in t[2]))
         if k in ("elem", "iternext"):
@@ -119,6 +122,8 @@ class Canon(object):
             if x[0] == "call":
                 if x[2].name in QUIET and x[2].name not in self.keep:
                     continue
+                if x[2].name in ("cast", "cast_mut", "cast_const") and not getattr(x[2], "local", False) and "ptr::" in (getattr(x[2], "path", "") or ""):
+                    continue
                 out.append(self.term(x[4]) if x[4] is not None else ("call", x[2].name, tuple(self.term(a) for a in x[3])))
             elif x[0] == "store":
                 if x[2][0] != "cell" and _fresh_box(self.ev, x[2]):
@@ -127,6 +132,11 @@ class Canon(object):
                 out.append(("store", pl, self.term(x[3])))
             elif x[0] == "loop":
                 out.append(self.loop(x[1], x[2]))
+                # what the way that leaves the loop does before leaving belongs to the sequence of this path, whether it is
+                # written inside the loop body or after the loop
+                L, idx = x[1], x[2]
+                if idx is not None and L.iters[idx].end in ("break", "return", "diverge"):
+                    out.extend(self.events(L.iters[idx].path.events))
             elif x[0] in ("yield", "retain"):
                 out.append((x[0], self.term(x[2]) if isinstance(x[2], tuple) else x[2]))
             elif x[0] == "panic":
@@ -146,6 +156,8 @@ class Canon(object):
                 self.subst[L.elem] = ("elem", name)
             if L.counter_key is not None:
                 skip.add(L.counter_key)
+        if self.live is not None:
+            skip |= set(k for k in L.carried if (L.id, k) not in self.live)
         # `for i in 0..xs.len() { .. xs[i] .. }` visits the elements of xs: xs[i] is the element
         src_override = None
         s = L.source
@@ -168,8 +180,11 @@ class Canon(object):
                 if it.end == "done":
                     continue
                 ups = tuple(sorted((self.key_name(k), repr(self.term(v))) for k, v in it.updates.items() if v != ("lvar", L.id, k) and k not in skip))
-                ws.append((it.end if it.end != "break" else "exit", self.conds(it.path), repr(self.events(it.path.events)), ups,
-                           repr(self.term(it.ret)) if it.end == "return" and it.ret is not None else None))
+                if it.end == "continue":
+                    ws.append((it.end, self.conds(it.path), repr(self.events(it.path.events)), ups, None))
+                else:
+                    # a way out: when it is taken is part of the loop; what it does on the way out is part of the path that takes it
+                    ws.append(("exit", self.conds(it.path), None, ups, None))
             return ws
 
         ways = build()
@@ -193,11 +208,66 @@ class Canon(object):
         return ("loop", name, repr(src), stages, carried, tuple(sorted(ways, key=repr)), repr(exit_how))
 
 
+def _vars_in(t, acc):
+    if isinstance(t, tuple):
+        if len(t) == 3 and t[0] in ("lvar", "lexit"):
+            acc.add((t[1], t[2]))
+        for x in t:
+            if isinstance(x, (tuple, list)):
+                _vars_in(x, acc)
+    elif isinstance(t, list):
+        for x in t:
+            _vars_in(x, acc)
+
+
+def _live_keys(e):
+    """(loop id, key) of the loop-carried variables that something on this way looks at: a condition, an argument, a stored
+    or returned value, or the update of another live variable.  A variable that is only ever written (a drop flag, a
+    temporary that happens to straddle the loop head) is not part of what the function does."""
+    live = set()
+    updates = {}
+
+    def scan_path(path):
+        for (ct, cv, cn, cs) in path.conds:
+            _vars_in(ct, live)
+        for x in path.events:
+            if x[0] == "loop":
+                L = x[1]
+                _vars_in(L.source, live)
+                for it in L.iters:
+                    scan_path(it.path)
+                    _vars_in(it.ret, live)
+                    for k, v in it.updates.items():
+                        updates.setdefault((L.id, k), []).append(v)
+            elif x[0] == "call":
+                _vars_in(x[3], live)
+            elif x[0] in ("store", "yield", "optset"):
+                _vars_in(tuple(y for y in x[2:] if isinstance(y, tuple)), live)
+            elif x[0] == "once":
+                _vars_in(x[3], live)
+
+    scan_path(e.path)
+    _vars_in(e.ret, live)
+    changed = True
+    while changed:
+        changed = False
+        for lk in list(live):
+            for v in updates.get(lk, []):
+                acc = set()
+                _vars_in(v, acc)
+                new = acc - live
+                if new:
+                    live |= new
+                    changed = True
+    return live
+
+
 def canonical(ev, ends, keep=()):
     """A frozenset of path descriptions."""
     out = set()
     for e in ends:
         c = Canon(ev, keep)
+        c.live = _live_keys(e)
         evs = c.events(e.path.events)
         conds = c.conds(e.path)
         ret = repr(c.term(e.ret)) if e.ret is not None else None
